@@ -186,6 +186,24 @@ func buildQueries(tier string) ([]qcase, map[string]int) {
 			}
 		}
 	}
+	// expressions with a literal prefix and a bounded, variable length (optional tail, counted repetition, alternatives
+	// of different length) in front of a follower: where the match ENDS decides what the follower sees, and a capture
+	// carries the matched text on; payloads like "aab-" start a false match one byte before the real one
+	bounded := []string{"ab-?", "aab?", "ab{1,2}", "a(?:b|b-)", "ab[ab-]?", "a-?b?", "aa(?:b|)", "ab?-", "a[ab]b?", "aa[ab-]b?", "a(?:a|ab)", "-a{1,2}",
+		// a class behind the literal prefix that rejects the prefix's own bytes: "aab.." holds an occurrence of the prefix that starts no match
+		"a[b-]a?", "aa[b-]a?", "a[b-]{1,2}", "a[b-](?:a|)", "ab[b-]a?", "a[b-]a{0,2}"}
+	for _, r1 := range bounded {
+		for _, r2 := range []string{"-", "b", "a", "^-", "b$", ".", "[ab]", "a-"} {
+			add("bounded prefix then c>c", ref.Then(ref.A(dataAtom("cdata", "", r1)), ref.A(dataAtom("cdata", "", r2))))
+			add("bounded prefix then c>s", ref.Then(ref.A(dataAtom("cdata", "", r1)), ref.A(dataAtom("sdata", "", r2))))
+			add("bounded prefix then s>s (conv1)", ref.Then(ref.A(dataAtom("sdata", "conv1", r1)), ref.A(dataAtom("sdata", "conv1", r2))))
+		}
+		for _, use := range []string{"@v@", "^@v@$", "@v@$", "-@v@"} {
+			for _, k2 := range []string{"cdata", "sdata"} {
+				add("bounded capture then variable", ref.Then(ref.A(dataAtom("cdata", "", "(?P<v>"+r1+")")), ref.A(varAtom(k2, use))))
+			}
+		}
+	}
 	// captures reused by a later element
 	for _, cap := range []string{"(?P<v>a)", "(?P<v>[ab])", "(?P<v>.)b", "(?P<v>a|ab)", "(?P<v>[ab]+)", "-(?P<v>.)"} {
 		for _, use := range []string{"@v@", "@v@b", "b@v@", "^@v@", "@v@$", "@v@@v@"} {
